@@ -36,6 +36,14 @@ CORPUS = [
     '10 FOR i = 1 TO 2 : FOR j = 1 TO 2 : PUNCH i*10+j : NEXT : NEXT\n20 FOR i = 1 TO 2 : FOR j = 1 TO 2 : PUNCH i*10+j : NEXT i\n30 PUNCH i, j\n40 SAVE i',
     '10 GOSUB 100 : PUNCH 2\n20 SAVE 3 : END\n100 PUNCH 1 : GOSUB 200 : RETURN\n200 PUNCH 1.5 : RETURN',
     '10 STOP',
+    '10 PUNCH STR_F$(3.14159, 10, 3), STR_F$(2.5, -10, 0) + "|", STR_E$(-12345.678, 12, 4), STR_E$(0, 0, 0), STR_F$(0.5, 0, -1), STR_F$(1e300, 5, 2), STR_F$(1/3, 300, 20)\n20 SAVE LEN(STR_F$(1e300, 5, 2))',
+    '10 PUNCH 0x10, 0x1A + 1, 0x.8, 0x1.8p3, 0x, 0xg, 0x1p, 0XfF, 0x1p-2\n20 SAVE 0x10',
+    '10 DIM g(0, 4)\n20 PUNCH g(1)',
+    '10 DIM g(3, 4)\n20 PUNCH g(1, 2, 3)',
+    '922337203685477580 PUNCH 1\n922337203685477581 SAVE 1',
+    '10 PUNCH (-2)^(-3), (-2)^(-2), (-1.5)^(-1), (-2)^3, (-2)^(-1) * (-3)^(-5)\n20 FOR k = -5 TO 5 : PUNCH (-1.5)^k : NEXT k\n30 SAVE (-2)^(-3)',
+    '10 ON 0 GOSUB 100\n20 ON 5 GOTO 100, 200\n30 ON 2.5 GOTO 100, 200, 300\n40 PUNCH 40\n100 PUNCH 100\n200 PUNCH 200\n300 PUNCH 300 : RETURN',
+    '10 DATA 1, 2 : DATA 3\n20 READ a : RESTORE 40 : READ b : RESTORE : READ c, d, e\n30 PUNCH a, b, c, d, e\n40 REM x : DATA 9\n50 DATA 4, "s"\n60 READ f, g$ : PUNCH f, g$ : READ h',
     '10 PUT$(PAD("x", 300), 1)\n20 a$ = GET$(1)\n30 PUNCH LEN(a$), a$\n40 PUT$(PAD("y", 256), 2) : SAVE LEN(GET$(2))',
     '10 PUNCH 1\n20 PUNCH "a" + 1',
 ]
@@ -43,6 +51,8 @@ CORPUS = [
 # of protocol P (e.g. a keyword bound to the wrong token makes model and code agree with each other)
 GOLDEN = [
     ('10 PUNCH 7 XOR 2, 6 AND 3, 6 OR 3, NOT 0, 1 < 2, 2 <= 2, 3 <> 3, 2 >= 3, 1 = 1, 5 > 4', [5, 2, 7, -1, 1, 1, 0, 0, 1, 1]),
+    ('10 PUNCH (-2)^(-3), (-2)^3, (-2)^(-2), (-3)^(-1), 2^(-1), (-1)^(-5)', [-0.125, -8, 0.25, -1/3, 0.5, -1]),
+    ('10 PUNCH STR_F$(3.14159, 8, 2), STR_E$(1234.5, 10, 2), STR_F$(2.5, 0, 0), 0x10 + 0x.8', ["    3.14", "  1.23e+03", "2", 16.5]),
     ('10 PUNCH 1 + 2 * 3, (1 + 2) * 3, 8 / 4 / 2, 2 - 3 - 4, 10 - 2 * 3 + 1, 1 < 2 AND 2 < 3, 1 OR 0 AND 0', [7, 9, 1, -5, 5, 1, 1]),
     ('10 PUNCH ABS(-3), SGN(-2), SGN(0), FLOOR(2.7), CEIL(2.1), FLOOR(-2.5), SQRT(16), EXP(0), LOG(1), LOG10(1000), SIN(0), COS(0), ARCTAN(0)',
      [3, -1, 0, 2, 3, -3, 4, 1, 0, 3, 0, 1, 0]),
@@ -59,6 +69,7 @@ GOLDEN = [
     ('10 DIM a(3), b$(2) : a(1) = 5 : a(3) = 7 : b$(2) = "x" : PUNCH a(0), a(1), a(3), b$(2), c(10)\n20 PUT(2.5, 1, 2) : PUT$("s", 3) : PUNCH GET(1, 2), GET(2, 1), GET$(3)',
      [0, 5, 7, "x", 0, 2.5, 0, "s"]),
 ]
+LINE_HANG = '9999999999999999999 PUNCH 1'
 PEEKPOKE = ['10 PUNCH PEEK(8)', '10 POKE 8, 1']
 
 
@@ -180,7 +191,7 @@ ERR_CLASS = [("Type mismatch", "type"), ("Syntax_error", "syntax"), ("Bad subscr
              ("FOR without NEXT", "for-wo-next"), ("NEXT without FOR", "next-wo-for"), ("WHILE without WEND", "while-wo-wend"),
              ("WEND without WHILE", "wend-wo-while"), ("RETURN without GOSUB", "return-wo-gosub"), ("Out of Data", "out-of-data"),
              ("Extra information", "extra"), ("already dimensioned", "array-already"), ("Illegal command", "illegal"),
-             ("missing \" or '", "lex-quote"), ("missing ) or ]", "lex-rp"), ("missing ( or [", "lex-lp"), ("not SAVEed", "not-saved")]
+             ("missing \" or '", "lex-quote"), ("missing ) or ]", "lex-rp"), ("missing ( or [", "lex-lp"), ("not SAVEed", "not-saved"), ("Line number is too large", "line-too-large")]
 
 
 def err_class(text):
@@ -314,7 +325,8 @@ def run(ctx):
     ctx.build_lib()
     exe = ctx.build_harness("ph_basic")
     setup_generator()
-    n = ctx.n(300, 30000)
+    import os
+    n = int(os.environ.get("VERIF_C17_N", ctx.n(300, 30000)))
     if not ok:
         n = max(n, 6000)
     # ---- known finding: PEEK / POKE dereference their argument (excluded from every generated program)
@@ -323,6 +335,11 @@ def run(ctx):
         if rs["p"]["status"].startswith("sig"):
             ctx.finding("basic-peek-poke", f"BASIC PEEK/POKE dereference an arbitrary address: {text!r} ends with {rs['p']['status']}",
                         {"program": text, "hosts": ["punch"]})
+    # ---- a line number of 19+ digits: BASIC error in the reference; the real engine must not hang
+    lh = run_real(ctx, exe, [("p", "punch", LINE_HANG)], tmo=5)
+    if lh["p"]["status"] != "err":
+        ctx.finding("basic-line-number-hang", f"line number too large: the real engine answers {lh['p']['status']} instead of a BASIC error "
+                    "(basic_compile restarts after the PBasicStop thrown by parseinput)", {"program": LINE_HANG, "hosts": ["punch"]})
     # ---- documented values on the real engine (and on the model)
     gm = run_model(ctx, [(i, 0, t) for i, (t, _) in enumerate(GOLDEN)])
     gr = run_real(ctx, exe, [(i, "punch", t) for i, (t, _) in enumerate(GOLDEN)])
@@ -349,6 +366,7 @@ def run(ctx):
     lines_hist = {}
     errk = {}
     distinct = set()
+    class_diffs = []
     BATCH = 1500
     for b0 in range(0, len(progs), BATCH):
         batch = progs[b0:b0 + BATCH]
@@ -391,6 +409,9 @@ def run(ctx):
                 errk[m["kind"]] = errk.get(m["kind"], 0) + 1
                 rc = err_class(rs[(i, "punch")]["err"])
                 stats["error_class_same" if rc == m["kind"] else "error_class_other"] += 1
+                if rc != m["kind"] and len(class_diffs) < 12:
+                    class_diffs.append({"program": p["text"][-700:], "reference": m["kind"], "real": rc,
+                                        "real_text": rs[(i, "punch")]["err"][:300]})
             else:
                 stats["ref_ok"] += 1
                 stats["ref_ub"] += m["ub"]
@@ -433,6 +454,7 @@ def run(ctx):
     ctx.cov["program_lines_histogram"] = lines_hist
     ctx.cov["construct_histogram"] = dict(sorted(construct.items()))
     ctx.cov["reference_error_kinds"] = dict(sorted(errk.items()))
+    ctx.cov["error_class_differences"] = class_diffs
     ctx.cov["rule"] = ("programs generated from the documented grammar by tools/gens/basic.py (all seven expression levels with minimal and "
                        "redundant parentheses, literal spellings and edge values, string functions, scalars/arrays, IF/THEN/ELSE, FOR/NEXT/STEP "
                        "with computed bounds, WHILE/WEND, forward GOTO, ON..GOTO/GOSUB, nested GOSUB/RETURN, DATA/READ/RESTORE, PUT/GET, "
